@@ -909,6 +909,8 @@ def sweep_c13():
         ('imported file moved to another id', dict({k: v for k, v in base.items() if k != 'b.aidl'}, **{'zzz.aidl': base['b.aidl']})),
         ('file defining a simple name the observed file uses without importing it', dict(base, **{'e.aidl': 'package zz; parcelable Unimported { int a; }'})),
         ('file defining a qualified name the observed file uses without importing it', dict(base, **{'e.aidl': 'package zz; parcelable Q { int a; }'})),
+        ('same-package file defining a simple name the observed file uses without importing it', dict(base, **{'e.aidl': 'package p; parcelable Unimported { int a; }'})),
+        ('two files defining a simple name the observed file uses without importing it', dict(base, **{'e.aidl': 'package zz; parcelable Unimported { int a; }', 'f.aidl': 'package yy; interface Unimported { void f(); }'})),
         ('only the observed file left', {'a.aidl': obs, 'b.aidl': base['b.aidl'], 'c.aidl': base['c.aidl']}),
         ('unrelated file importing the observed one', dict(base, **{'e.aidl': 'package s; import p.A; interface E { void f(in A a); }'})),
     ]
